@@ -85,3 +85,41 @@ Proof.
     + apply filter_In. auto.
     + rewrite Hp. cbn. auto.
 Qed.
+
+(** C03: the exported names and sorts are exactly the designated export names (which include every
+    type definition's name), each with the sort of the designated node *)
+Definition export_sig (x : parg) : str * sort := (fst (fst x), snd (fst x)).
+
+Theorem exports_spec e u g dc tau ord st names w :
+  EncInv e u g -> topo_orderb g ord = true ->
+  encode_with_order e u g dc tau ord = ROk (st, names) ->
+  (forall p, In p (e_dedup st) -> fst p = snd p) ->
+  decode_wiring names (e_log st) = Some w ->
+  (forall n, In n ord -> is_def g n = true -> exists nm, In (nm, n) (exports g)) ->
+  (forall nm n, In (nm, n) (exports g) -> live g n = true) ->
+  forall nm s, In (nm, s) (map export_sig (w_exports w)) <-> In (nm, s) (spec_export_names e g).
+Proof.
+  intros EI TO R Cons D E1 E2 nm s.
+  pose proof (wiring_correct _ _ _ _ _ _ _ _ EI TO R Cons) as W. rewrite D in W. cbn [option_map] in W. injection W as _ We _ _.
+  apply topo_orderb_Topo in TO as T.
+  assert (P : map export_sig (w_exports w) = map export_sig (spec_exports e u g ord)).
+  { rewrite <- We, map_map. apply map_ext. intros [[n0 s0] p0]. cbn. now destruct (sort_eqb s0 SType && str_mem n0 (def_names e g)). }
+  rewrite P. unfold spec_exports, spec_export_names. rewrite map_app, in_app_iff, !in_map_iff. split.
+  - intros [[x [Ex Ix]]|[x [Ex Ix]]].
+    + apply in_map_iff in Ix as [n [En In_n]]. subst x. cbn in Ex. injection Ex as <- <-.
+      apply filter_In in In_n as [Io Dn]. destruct (E1 _ Io Dn) as [nm0 I0]. exists (nm0, n). split; auto. cbn [fst snd].
+      rewrite (ei_def_single _ _ _ EI _ _ I0 Dn).
+      destruct (proj1 (is_def_true g n) Dn) as [nd [G K]]. unfold node_sort. rewrite G, (ei_def_node _ _ _ EI _ _ G K). reflexivity.
+    + apply in_flat_map in Ix as [[nm0 n] [I0 Hx]]. cbn in Hx.
+      destruct (is_def g n && str_eqb (nstr e nm0) (def_name e g n)); [destruct Hx|]. destruct Hx as [<-|[]].
+      cbn in Ex. injection Ex as <- <-. exists (nm0, n). auto.
+  - intros [[nm0 n] [Ex I0]]. cbn in Ex. injection Ex as <- <-.
+    destruct (is_def g n) eqn:Dn.
+    + left. exists (def_name e g n, SType, PDef). split.
+      * unfold export_sig. cbn [fst snd]. rewrite (ei_def_single _ _ _ EI _ _ I0 Dn).
+        destruct (proj1 (is_def_true g n) Dn) as [nd [G K]]. unfold node_sort. rewrite G, (ei_def_node _ _ _ EI _ _ G K). reflexivity.
+      * apply in_map_iff. exists n. split; auto. apply filter_In. split; auto.
+        apply (to_all _ _ T). apply node_ids_In. eauto.
+    + right. exists (nstr e nm0, node_sort e g n, node_prov e u g ord n). split; auto.
+      apply in_flat_map. exists (nm0, n). split; auto. cbn. rewrite Dn. cbn. auto.
+Qed.
